@@ -39,7 +39,7 @@ impl Group for Serve {
         "c05.serve"
     }
     fn rule(&self) -> &'static str {
-        "up to 3 vary rules with many-to-few transformations (first character, short/long, constant; first two characters with an empty default, so that different tuples concatenate to the same bytes) and defaults on one cached page; 2-7 requests whose header values are present / absent / non-UTF-8 / in the same class / in different classes, in ALL orders of 4 requests for a sample (quick) and random orders otherwise, through handle_cache; the handler returns the transformed tuple it computed itself and counts invocations; per request: which variant came back and whether the handler ran, plus the vary header, compared with the model; oracle: body = f(transform(header)) (the request's own tuple), one computation per distinct tuple; non-trivial = at least two distinct tuples"
+        "up to 3 vary rules with many-to-few transformations (first character, short/long, constant; first two characters with an empty default, so that different tuples concatenate to the same bytes) and defaults on one cached page; 2-7 requests (with changing query strings, which the page ignores) whose header values are present / absent / non-UTF-8 / in the same class / in different classes, in ALL orders of 4 requests for a sample (quick) and random orders otherwise, through handle_cache; the handler returns the transformed tuple it computed itself and counts invocations; per request: which variant came back and whether the handler ran, plus the vary header, compared with the model; oracle: body = f(transform(header)) (the request's own tuple), one computation per distinct tuple; non-trivial = at least two distinct tuples"
     }
     fn generate(&self, ctx: &Ctx, rng: &mut Rng) -> Vec<String> {
         let mut v = Vec::new();
@@ -112,8 +112,10 @@ impl Group for Serve {
         let addr: SocketAddr = "10.0.0.2:4000".parse().unwrap();
         let mut outs = Vec::new();
         let mut vary_seen = String::from("-");
-        for r in parse_list(p[2]).unwrap() {
-            let mut b = Request::builder().uri("/v");
+        for (ri, r) in parse_list(p[2]).unwrap().into_iter().enumerate() {
+            // the page is cached with the query ignored (`FatResponse::cache`): the same variants, whatever query string a request
+            // happens to carry — it changes from request to request
+            let mut b = Request::builder().uri(["/v", "/v?r=1", "/v?r=2", "/v?"][(ri + line.len()) % 4]);
             if !mask.is_empty() {
                 for (fi, f) in r.split(';').enumerate() {
                     if f != "~" {
